@@ -26,10 +26,11 @@ def Pf.preBeforeTrading (p : Pf) : Pf :=
   | none => p
 
 /-- `deposit_withdraw(account k, amount, receiving date)`: the unit net value is read first, the account books the
-flow, then `units := total_value / unit_net_value`.  `none` = the account refused (insufficient cash) or no units. -/
+flow, then `units := total_value / unit_net_value`.  `none` = the account refused (insufficient cash), no units, or a unit net value of 0. -/
 def Pf.depositWithdraw (p : Pf) (k : Nat) (amount : R) (recv : Option Nat) : Option Pf :=
   match p.nav, p.accounts[k]? with
   | some n, some a =>
+    if n == 0 then none else       -- refused before anything is booked (after a wipe-out there is no unit price)
     match a.depositWithdraw amount recv with
     | some a' =>
       let p' := { p with accounts := p.accounts.set k a' }
